@@ -245,6 +245,33 @@ pub fn eval(ctx: &Ctx, case: &Case) -> Verdict {
     }
 }
 
+/// Structure-aware decoding of fuzzer bytes into (boundary, parts, shape): shared by fuzz/fuzz_targets/c16_multipart.rs and the corpus section.
+pub fn case_from_fuzz_bytes(data: &[u8]) -> Case {
+    use arbitrary::Unstructured;
+    let mut u = Unstructured::new(data);
+    let alphabet: &[u8] = b"ABCDEFGHIJKLMNOPQRSTUVWXYZabcdefghijklmnopqrstuvwxyz0123456789-'()+_,./:=?";
+    let blen = u.int_in_range(1..=70usize).unwrap_or(8);
+    let mut boundary = String::new();
+    for _ in 0..blen { let i = u.int_in_range(0..=alphabet.len() - 1).unwrap_or(0); boundary.push(alphabet[i] as char); }
+    let nparts = u.int_in_range(1..=8usize).unwrap_or(1);
+    let mut parts = vec![];
+    for k in 0..nparts {
+        let nh = u.int_in_range(1..=3usize).unwrap_or(1);
+        let mut headers = vec![];
+        for h in 0..nh {
+            let vlen = u.int_in_range(0..=20usize).unwrap_or(0);
+            let mut value = String::from("v");
+            for _ in 0..vlen { let c = u.int_in_range(0x21u8..=0x7e).unwrap_or(b'x'); value.push(c as char); }
+            headers.push((if h == 0 { "Content-Disposition".to_string() } else { format!("X-H{}", h) }, if h == 0 { format!("form-data; name=\"f{}\"", k) } else { value }));
+        }
+        let blen = u.int_in_range(0..=300usize).unwrap_or(0);
+        let body = u.bytes(blen.min(u.len())).unwrap_or(&[]).to_vec();
+        parts.push(PartSpec { headers, body: Bytes(body) });
+    }
+    let browser = u.arbitrary::<bool>().unwrap_or(false);
+    if browser { Case::Browser { parts, boundary } } else { Case::RoundTrip { parts, boundary } }
+}
+
 pub fn run(ctx: &Ctx) {
     crate::fw::inproc::init_env();
     let tree = match super::common::fixed_docroot() { Ok(t) => t, Err(e) => { ctx.inconclusive(&format!("docroot: {}", e)); return; } };
@@ -256,6 +283,9 @@ pub fn run(ctx: &Ctx) {
     ctx.prop("negatives", ctx.share(ctx.scale(12_000, 500_000)), (parts_strategy(256), boundary_strategy(), 0u8..5, any::<u16>()).prop_map(|(parts, boundary, what, cut)| Case::Negative { parts, boundary, what, cut }), |c| eval(ctx, c));
     let fields = proptest::collection::vec(("[a-z]{1,8}", "[!-~]([ -~]{0,20}[!-~])?|"), 1..6);
     ctx.prop("echo", ctx.share(ctx.scale(6_000, 200_000)), (fields, "[A-Za-z0-9]{1,30}").prop_map(|(fields, boundary)| Case::Echo { fields, boundary }), |c| eval(ctx, c));
+    // saved corpus of the coverage-guided campaigns (corpus/c16/*.pack), decoded like the fuzz target does
+    ctx.set_section("corpus");
+    super::c04::replay_corpus_with(ctx, "c16", |ctx, data| { let c = case_from_fuzz_bytes(data); (eval(ctx, &c), serde_json::to_value(&c).unwrap_or(Value::Null)) });
     let _ = std::env::set_current_dir("/");
     drop(tree);
 }
